@@ -996,12 +996,26 @@ def _any(x, axis=None):
         out[idx] = _any(moved[idx])
     return out
 
+def _is_boolpoly(v):
+    """A polynomial in boolean atoms only (the value of a comparison, a conjunction or a complement)."""
+    r = Rat.lift(v)
+    if r.fv is not None or not r.d.is_const():
+        return False
+    return all(all(_is_bool_name(n) for n, _ in mono) for mono in r.n.t)
+
+
 def _all(x, axis=None):
     x = asarr(x)
     b = _concrete_bools(x)
     if b is not None and axis is None:
         return all(b)
     if axis is None:
+        if not FIELD['on'] and x.size <= 64 and all(_is_boolpoly(v) for v in x.ravel()):
+            # conjunction of boolean-valued normal forms (comparison atoms, their products / complements)
+            r = Rat.lift(1)
+            for v in x.ravel():
+                r = r * Rat.lift(v)
+            return r
         return uf('all', x)
     moved = np.moveaxis(x, axis, -1)
     out = np.empty(moved.shape[:-1], dtype=object)
@@ -1601,7 +1615,10 @@ class Interp:
     def scan(self, f, init, xs, length=None, reverse=False, **kw):
         leaves = self.leaves(xs)
         n = length if length is not None else asarr(leaves[0]).shape[0]
-        carry = init
+        # JAX flattens the carry and rebuilds it around tracers: the body sees (and returns) pytrees whose
+        # containers are NOT the caller's objects, so in-place dict writes inside / after the scan never
+        # reach the caller's state
+        carry = self.fresh(init)
         ys = []
         rng = range(n - 1, -1, -1) if reverse else range(n)
         for i in rng:
@@ -1610,10 +1627,21 @@ class Interp:
             ys.append(y)
         if reverse:
             ys = ys[::-1]
+        carry = self.fresh(carry)
         if ys and ys[0] is None:
             return carry, None
         stacked = self.tree_map(('prim', 'stack', lambda *a: np.stack([asarr(x) for x in a])), *ys) if ys else None
         return carry, stacked
+
+    def fresh(self, t):
+        """The same pytree in new containers (what flatten / unflatten across a JAX transformation yields)."""
+        if isinstance(t, Struct):
+            return Struct(t.cls, {k: self.fresh(v) for k, v in t.f.items()}, home=t.home)
+        if isinstance(t, dict):
+            return {k: self.fresh(v) for k, v in t.items()}
+        if isinstance(t, (tuple, list)) and not isinstance(t, np.ndarray):
+            return type(t)(self.fresh(v) for v in t)
+        return t
 
     def leaves(self, t):
         if isinstance(t, Struct):
